@@ -16,7 +16,8 @@ import (
 // Run checks all functions of the scope.
 func Run(cfg core.Config, scope core.Scope) *core.Result {
 	res := core.NewResult("LOOPIDX")
-	res.Rules = append(res.Rules, "LOOPIDX.unused: in a counting for loop that stores to slice elements, some store index (or a value feeding it) depends on the loop counter or on a variable updated in the loop")
+	res.Rules = append(res.Rules, "LOOPIDX.origin: the key of `for j := range r`, where r is a local reslice base[lo:hi] with a non-zero lower bound, is an index into r: it is not used bare to index base (the offset lo would be lost)",
+		"LOOPIDX.unused: in a counting for loop that stores to slice elements, some store index (or a value feeding it) depends on the loop counter or on a variable updated in the loop")
 	res.Configs = append(res.Configs, cfg.String())
 	pkgs, err := core.Load(cfg, scope.Patterns...)
 	if err != nil {
@@ -35,6 +36,7 @@ func Run(cfg core.Config, scope core.Scope) *core.Result {
 					continue
 				}
 				name := core.FuncName(pkg, fd)
+				checkOrigin(res, info, fd, name)
 				ast.Inspect(fd.Body, func(n ast.Node) bool {
 					fs, ok := n.(*ast.ForStmt)
 					if !ok || fs.Init == nil || fs.Cond == nil {
@@ -153,4 +155,95 @@ func Run(cfg core.Config, scope core.Scope) *core.Result {
 		}
 	}
 	return res
+}
+
+// checkOrigin implements LOOPIDX.origin.
+func checkOrigin(res *core.Result, info *types.Info, fd *ast.FuncDecl, name string) {
+	// local reslices r := base[lo:hi] with a lower bound that is not the constant 0
+	type reslice struct {
+		base types.Object
+		lo   ast.Expr
+	}
+	def := map[types.Object]reslice{}
+	multi := map[types.Object]bool{}
+	ast.Inspect(fd.Body, func(n ast.Node) bool {
+		as, ok := n.(*ast.AssignStmt)
+		if !ok || len(as.Lhs) != len(as.Rhs) {
+			return true
+		}
+		for i, l := range as.Lhs {
+			id, ok := l.(*ast.Ident)
+			if !ok {
+				continue
+			}
+			o := core.ObjOf(info, id)
+			if o == nil {
+				continue
+			}
+			se, ok := as.Rhs[i].(*ast.SliceExpr)
+			if !ok || se.Low == nil {
+				multi[o] = true
+				continue
+			}
+			if tv, ok := info.Types[se.Low]; ok && tv.Value != nil && tv.Value.ExactString() == "0" {
+				multi[o] = true
+				continue
+			}
+			bid, ok := se.X.(*ast.Ident)
+			if !ok {
+				multi[o] = true
+				continue
+			}
+			if _, dup := def[o]; dup {
+				// redefined in a loop body with another offset: still a reslice of the same base?
+				if def[o].base != core.ObjOf(info, bid) {
+					multi[o] = true
+				}
+				continue
+			}
+			def[o] = reslice{core.ObjOf(info, bid), se.Low}
+		}
+		return true
+	})
+	ast.Inspect(fd.Body, func(n ast.Node) bool {
+		rs, ok := n.(*ast.RangeStmt)
+		if !ok || rs.Key == nil {
+			return true
+		}
+		rid, ok := rs.X.(*ast.Ident)
+		if !ok {
+			return true
+		}
+		r := core.ObjOf(info, rid)
+		d, ok := def[r]
+		if !ok || multi[r] || d.base == nil {
+			return true
+		}
+		kid, ok := rs.Key.(*ast.Ident)
+		if !ok || kid.Name == "_" {
+			return true
+		}
+		key := core.ObjOf(info, kid)
+		res.Obligations++
+		res.Count("range_loops_over_local_reslices", 1)
+		ast.Inspect(rs.Body, func(x ast.Node) bool {
+			ix, ok := x.(*ast.IndexExpr)
+			if !ok {
+				return true
+			}
+			b, ok1 := ix.X.(*ast.Ident)
+			k, ok2 := ix.Index.(*ast.Ident)
+			if ok1 && ok2 && core.ObjOf(info, b) == d.base && core.ObjOf(info, k) == key {
+				res.Add(core.Finding{
+					Rule: "LOOPIDX.origin",
+					Key:  fmt.Sprintf("LOOPIDX.origin|%s|%s[%s]", name, b.Name, k.Name),
+					Pos:  core.Pos(ix.Pos()), Func: name,
+					Msg: fmt.Sprintf("%s is the key of `range %s`, and %s = %s[%s:…]: indexing %s with it drops the offset %s (meant %s[%s])",
+						k.Name, rid.Name, rid.Name, b.Name, types.ExprString(d.lo), b.Name, types.ExprString(d.lo), rid.Name, k.Name),
+				})
+			}
+			return true
+		})
+		return true
+	})
 }
